@@ -36,6 +36,15 @@ def main():
                 env = dict(os.environ, WT=wt, SRC=wt, WORKTREE=wt, TREE=wt)
                 p = subprocess.run(["bash", os.path.join(d, "demo.sh"), wt], cwd=d, stdout=subprocess.PIPE, stderr=subprocess.STDOUT, timeout=900, env=env)
                 rc, out = p.returncode, p.stdout.decode("utf-8", "replace")
+            if not (rc == 0 and "DEMONSTRATED:" in out) and res.get("applies"):
+                # demonstrations that hard-code the sub-agent's own worktree: apply the patch there for the run, then restore it
+                awt = os.path.join("/work/seed", os.path.basename(d).split("-")[0])
+                if os.path.isdir(awt) and subprocess.call(["git", "-C", awt, "apply", os.path.join(d, "patch.diff")]) == 0:
+                    try:
+                        rc, out = sh(["bash", os.path.join(d, "demo.sh")], cwd=d, timeout=900)
+                    finally:
+                        subprocess.call(["git", "-C", awt, "checkout", "--", "."])
+                        subprocess.call(["git", "-C", awt, "clean", "-fdxq"])
             res["demo_exit"] = rc
             res["demonstrated"] = rc == 0 and any(l.startswith("DEMONSTRATED:") for l in out.split("\n"))
             res["demo_line"] = next((l for l in out.split("\n") if l.startswith("DEMONSTRATED:")), out[-300:])[:400]
